@@ -25,6 +25,11 @@ def body(run):
         lambda: exe.__setitem__(0, run.go_build("handshake")),
     )
     rows = dedupe(res[3].rows)
+    if not q:
+        # the quantifier of the property: every subset of the 11 supported pairs (x server key x token types)
+        r_all = run.tlc("Handshake", "Handshake", "Handshake_mc_all.cfg", timeout=6000,
+                        label="contract over all 7008 well-formed configurations (every subset of the 11 pairs)")
+        run.cov["all_configurations_states"] = r_all.distinct
     if not rows:
         raise vf.Inconclusive("TLC emitted no rows")
     run.log("TLC: %d states; %d rows to replay" % (run.cov["states"], len(rows)))
